@@ -113,16 +113,16 @@ MIN_COUNTERS = {
               "loaded_entries_kept_checked": 350, "optimum_vs_loaded_checked": 55, "replay_history_checked": 55,
               "replay_clause_judged_default_reset": 20, "deterministic_mdo_references_ended_by_gemseo_ftol_xtol": 2,
               "child_anchors_distinct": 10},
-    "thorough": {"configurations": 11, "prefilled_first_crashes": 18, "crash_points": 280, "crash_points_prefilled": 160,
-                 "census_checked": 280, "crash_points_among_first_two": 20, "crash_points_among_last_three": 30,
-                 "backups_loaded": 250, "backup_values_checked": 2700,
-                 "backup_vs_reference_checked": 240, "crash_before_first_export": 20,
-                 "iter_backup_last_point_partial": 110, "restarts_checked": 560,
-                 "restarts_with_default_counter_reset": 280, "restarts_with_kept_counter": 280,
-                 "restart_execs_checked": 12000,
-                 "stored_points_not_reexecuted": 1600, "restarts_cheaper_than_reference": 400,
-                 "loaded_entries_kept_checked": 1800, "optimum_vs_loaded_checked": 400, "replay_history_checked": 350,
-                 "replay_clause_judged_default_reset": 100, "deterministic_mdo_references_ended_by_gemseo_ftol_xtol": 2,
+    "thorough": {"configurations": 11, "prefilled_first_crashes": 18, "crash_points": 300, "crash_points_prefilled": 180,
+                 "census_checked": 300, "crash_points_among_first_two": 16, "crash_points_among_last_three": 25,
+                 "backups_loaded": 280, "backup_values_checked": 3300,
+                 "backup_vs_reference_checked": 210, "crash_before_first_export": 22,
+                 "iter_backup_last_point_partial": 120, "restarts_checked": 600,
+                 "restarts_with_default_counter_reset": 300, "restarts_with_kept_counter": 300,
+                 "restart_execs_checked": 15000,
+                 "stored_points_not_reexecuted": 1900, "restarts_cheaper_than_reference": 420,
+                 "loaded_entries_kept_checked": 2200, "optimum_vs_loaded_checked": 470, "replay_history_checked": 370,
+                 "replay_clause_judged_default_reset": 150, "deterministic_mdo_references_ended_by_gemseo_ftol_xtol": 2,
                  "child_anchors_distinct": 10},
 }
 SHARD_TIMEOUT = {"quick": 1800, "thorough": 3600}  # caps only; ~40 s / ~150 s per shard on an idle machine
